@@ -209,12 +209,15 @@ let run_op (c : ctx) (case : string) : string =
   | Bad_case s -> "BAD-CASE " ^ s
   | Model_stop s -> s
 
-(* schema table from argv; [with_schema case f] strips an "@name " prefix and runs f on that ctx *)
+(* schema table from argv; [with_schema case f] strips an "@name " prefix and runs f on that ctx.
+   [render_hook]: the per-type rendering put into every ctx (a driver may point it at a table of
+   real conversions reported by the harness; default = the model's render_default) *)
+let render_hook : (n -> n list -> n list) ref = ref render_default
 let ctx_table : (string * ctx Lazy.t) list Lazy.t = lazy (
   List.filter_map (fun a ->
     match String.index_opt a '=' with
     | Some i -> let name = String.sub a 0 i and path = String.sub a (i + 1) (String.length a - i - 1) in
-                Some (name, lazy (load_ctx path render_default))
+                Some (name, lazy (load_ctx path (fun ty v -> !render_hook ty v)))
     | None -> None) (List.tl (Array.to_list Sys.argv)))
 let with_schema (case : string) (f : ctx -> string -> 'a) : 'a =
   let tbl = Lazy.force ctx_table in
